@@ -186,4 +186,19 @@ def Lyds.unlink (i : Nat) (s : Lyds α) : Lyds α :=
   if s.n ≤ 1 then ⟨.nil, 0⟩
   else ⟨Rb.remove i s.tree, s.n - 1⟩
 
+/-- `lyd_unlink_siblings(node)` with `node` the `i`-th instance → `lyds_split`: from the leader on (`i = 0`) the whole list leaves
+    with its metadata and tree; otherwise `node` and every following instance is taken out of the tree by `rb_remove_node`, one
+    after the other (each time the node now at position `i`), and the detached instances have no tree -/
+def Lyds.split (i : Nat) (s : Lyds α) : Lyds α :=
+  if i = 0 then ⟨.nil, 0⟩
+  else if s.n ≤ i then s
+  else ⟨(List.replicate (s.n - i) i).foldl (fun t j => Rb.remove j t) s.tree, i⟩
+
+/-- `lyds_insert2` (bulk merge with `LYD_MERGE_DESTRUCT`, red-black nodes and metadata taken from the `lyds_pool` of the source
+    list instead of the allocator): no leader → plain link; a leader without tree → `lyds_additionally_reuse_rb_tree` (pooled
+    node reset to the leader = black root, the other instances inserted; `lyds_additionally_create_rb_nodes` when the pool runs
+    dry) — the same tree as `lyds_additionally_create_rb_tree` builds; then `rb_insert_node` of the (reset) pooled node.  Where
+    the memory of a red-black node comes from does not show in the tree: the SHAPE is that of `Lyds.insert`. -/
+def Lyds.insert2 (gt : α → α → Bool) (only : Option α) (x : α) (s : Lyds α) : Lyds α := Lyds.insert gt only x s
+
 end LyModel.Sib.Rb
